@@ -53,6 +53,7 @@ def _values_for(value, rng, pool):
             for x in extra[2:14]:
                 if not any(type(y) is type(x) for y in items):
                     outs.append(('only-' + type(x).__name__, [x]))
+                    outs.append(('first-' + type(x).__name__, [x] + items))       # ... followed by the items already there
         return [(l, o) for l, o in outs if o != items]
     if type(value) in (list, tuple) and value:
         outs = [('first', type(value)(value[:1])), ('doubled', type(value)(list(value) + list(value))), ('reversed', type(value)(value[::-1]))]
